@@ -101,8 +101,11 @@ def main(argv=None):
     mod = load(a.prop)
     core.ACTIVE.add(a.prop)
     mod.install()
+    anchors_missing, anchors_internal = [], []
     if hasattr(mod, "anchors"):
-        core.watch_anchors(mod.anchors())
+        found, anchors_missing = core.resolve_anchors(mod.anchors)
+        core.watch_anchors(found)
+        anchors_internal = sorted({core._code_of(f).co_qualname for f in found if core.internal_anchor(f)})
     stats = Stats()
     t0 = time.time()
     if a.replay:
@@ -143,6 +146,8 @@ def main(argv=None):
         "orders": len(core.LOG.orders),
         "order_hashes": sorted(core.LOG.orders)[:20000],
         "anchors": core.anchor_hits(),
+        "anchors_missing": anchors_missing,
+        "anchors_internal": anchors_internal,
         "wall_s": time.time() - t0,
     }
     if os.environ.get("VF_LINECOV"):
